@@ -55,11 +55,11 @@ func TestTCPGrid(t *testing.T) {
 							fr := Frame{P: codec.EtherIPv4, B: hex.EncodeToString(b), Rel: rel}
 							c := Case{Frames: []Frame{fr}}
 							evid.Journal("barrage", c)
-							f := evid.Guard(func() *evid.Failure { w.Inject(fr); return nil })
+							f := guarded(func() *evid.Failure { w.Inject(fr); return nil })
 							evals++
 							n++
 							if f == nil && n%3000 == 0 {
-								f = w.Probe()
+								f = guarded(w.Probe)
 							}
 							if f != nil {
 								evid.Direct(t, "barrage", f, c)
